@@ -27,8 +27,9 @@ CarriersOf(F) == {F[i].cr : i \in 1..Len(F)}
 Ren1 == <<1000, 0, 0>>
 ExpCarriers == <<"ELECTRICIDAD", "EAMBIENTE", "TERMOSOLAR">>
 
-\* one iteration of the export-defaults loop of normalize for carrier c
-ExportDefaults(F, c) ==
+\* one iteration of the export-defaults loop of normalize for carrier c.
+\* A missing grid factor is an error only for a carrier the set really has (crs).
+ExportDefaults(F, c, crs) ==
   LET ka == Key(c, "INSITU", "SUMINISTRO", "A")
       kr == Key(c, "RED", "SUMINISTRO", "A")
       F1 == IF Has(F, ka)
@@ -39,7 +40,7 @@ ExportDefaults(F, c) ==
      THEN [ok |-> TRUE,
            f |-> Ensure(Ensure(F1, Key(c, "INSITU", "A_RED", "B"), FindM(F1, kr)),
                         Key(c, "INSITU", "A_NEPB", "B"), FindM(F1, kr))]
-     ELSE [ok |-> FALSE, f |-> F1]
+     ELSE [ok |-> c \notin crs, f |-> F1]
 
 Normalize(F0, defRed1, defRed2) ==
   LET crs == CarriersOf(F0)       \* collected before the forced updates
@@ -50,9 +51,9 @@ Normalize(F0, defRed1, defRed2) ==
       F5 == IF "ELECTRICIDAD" \in crs
             THEN Update(F4, Key("ELECTRICIDAD", "INSITU", "SUMINISTRO", "A"), Ren1) ELSE F4
       gridOk == \A c \in crs : Has(F5, Key(c, "RED", "SUMINISTRO", "A"))
-      e1 == ExportDefaults(F5, ExpCarriers[1])
-      e2 == ExportDefaults(e1.f, ExpCarriers[2])
-      e3 == ExportDefaults(e2.f, ExpCarriers[3])
+      e1 == ExportDefaults(F5, ExpCarriers[1], crs)
+      e2 == ExportDefaults(e1.f, ExpCarriers[2], crs)
+      e3 == ExportDefaults(e2.f, ExpCarriers[3], crs)
   IN IF ~gridOk \/ ~e1.ok \/ ~e2.ok \/ ~e3.ok THEN [ok |-> FALSE, f |-> <<>>]
      ELSE [ok |-> TRUE,
            f |-> Ensure(Ensure(e3.f, Key("RED1", "RED", "SUMINISTRO", "A"), defRed1),
